@@ -422,6 +422,17 @@ func vfC14Scenarios(thorough bool) []*vfGWScenario {
 				Alphabet: []string{"gate:a", "pub:a:m1", "vrel:V:m1:A", "release:h"}, Msgs: msgs, Depth: d, Leaf: []string{"cancel"}})
 		}
 	}
+	// the non-default last-seen cache, with messages waiting in the validation queue behind a parked worker: they are
+	// marked seen after the event loop has gone (and has told the cache it is done)
+	for _, router := range []string{"gossip", "flood"} {
+		proto := map[string]string{"flood": "fs", "gossip": "v11"}[router]
+		peers := []vfPeerCfg{{Name: "a", Proto: proto, IP: "10.0.0.1"}, {Name: "h", Proto: proto, IP: "10.0.0.2"}}
+		m2 := map[string]vfMsgSpec{"m1": {Topic: "t", Author: "x", Seq: 1, Size: 8}, "m2": {Topic: "t", Author: "x", Seq: 2, Size: 8}}
+		out = append(out, &vfGWScenario{Name: router + "-lastseen", Cfg: vfGWCfg{Router: router, Peers: peers, Topics: []string{"t"}, Params: "d2", QueueSize: 2, Strategy: "last", Workers: 1,
+			Prefix: []string{"conn:a", "sub:a:t", "conn:h", "join:t"}, Extra: map[string]string{"leak_is_violation": "1", "no_ops": "1"},
+			Validators: []vfValCfg{{Name: "V", Topic: "t", Inline: true, Gated: true, Verdict: "A"}}},
+			Alphabet: []string{"pub:a:m1", "pub:a:m2", "pub:h:m2", "vrel:V:m1:A", "vrel:V:m2:A", "lpub:t:p1"}, Msgs: m2, Depth: d + 1, Leaf: []string{"cancel"}})
+	}
 	// validations in flight with several asynchronous validators (default + topic) whose verdicts arrive in every
 	// order, among them a Reject that ends the collection early while the other validator is still running
 	for _, verdicts := range [][2]string{{"A", "R"}, {"R", "A"}, {"R", "R"}, {"I", "R"}} {
